@@ -590,7 +590,7 @@ class C03Check(StreamCheckBase):
         "attributes re-derived from constructor parameters on every call (n_features_in_, budget_, dist_func_, dist_func_dict_) are not state in the sense of the property",
         "lazy creation of fitted attributes by the first call is allowed; both creation paths must behave alike (checked through the twin)",
     ]
-    tiers = {"quick": {"runs": 1600, "wall_cap": 400}, "thorough": {"runs": 40000, "wall_cap": 3000}}
+    tiers = {"quick": {"runs": 3600, "wall_cap": 600}, "thorough": {"runs": 70000, "wall_cap": 3300}}
     chunk = 20
 
     def generate(self, rng: SimRng):
@@ -863,7 +863,7 @@ class C04Check(StreamCheckBase):
         "density-based and cognitive strategies are driven one instance per call (inside a chunk they consult the manager without committing; the property is about managers)",
         "BalancedIncrementalQuantileFilter is not budget enforcing and is not a subject",
     ]
-    tiers = {"quick": {"runs": 2400, "wall_cap": 400}, "thorough": {"runs": 60000, "wall_cap": 3000}}
+    tiers = {"quick": {"runs": 7000, "wall_cap": 600}, "thorough": {"runs": 140000, "wall_cap": 3300}}
     chunk = 30
 
     def generate(self, rng: SimRng):
@@ -1107,7 +1107,7 @@ class C10Check(StreamCheckBase):
         "chunk invariance is only demanded for the managers/strategies named in the property and with the classifier held fixed over the stream",
         "float state is compared to 1e-12 relative (re-association of float operations is not a defect), counters and generator state exactly",
     ]
-    tiers = {"quick": {"runs": 1600, "wall_cap": 400}, "thorough": {"runs": 40000, "wall_cap": 3000}}
+    tiers = {"quick": {"runs": 6000, "wall_cap": 600}, "thorough": {"runs": 120000, "wall_cap": 3300}}
     chunk = 20
 
     def generate(self, rng: SimRng):
